@@ -433,7 +433,7 @@ def main(prop, tier, seed, replay_path=None):
     import collections
     kinds = collections.Counter(c["kind"] for _, c in todo)
     distinct = {json.dumps({k: v for k, v in c.items() if k not in ("expect",)}, sort_keys=True, default=str) for _, c in todo}
-    cov = {"states": 1, "transitions": 1, "traces_validated_against_impl": len(todo),
+    cov = {"states": int(max(1, r.distinct)), "transitions": int(max(1, r.generated)), "traces_validated_against_impl": len(todo),
            "samples": [todo[0][1], todo[len(todo) // 2][1]],
            "evaluations": len(todo), "distinct_nontrivial": len(distinct),
            "rule": "artefact cases enumerated by TLC from Persist.tla (configuration value grammar to depth 2 at two locations; sample class x namespace x dtype x field subset x layout x route; histories; transform class x fitted x namespace x dtype; flow back-end x trained x dtype x kwargs; fit+resume_from_file settings), each written to and reloaded from a real HDF5 file",
